@@ -3,3 +3,5 @@
 T="$1"; TAG="$2"
 cd "$T" && OMP_NUM_THREADS=1 OPENBLAS_NUM_THREADS=1 /venv/bin/python -m pytest -ra -q -p no:cacheprovider --timeout=900 --continue-on-collection-errors --junitxml=/tmp/probe/junit_$TAG.xml > /tmp/probe/serial_$TAG.out 2>&1
 grep -E "^(FAILED|ERROR|SUBFAILED)|passed|failed" /tmp/probe/serial_$TAG.out | sed 's/ - .*//' | sort | uniq
+# the suite writes image artefacts next to the expected images; remove the untracked ones so that they never end up in a commit
+git -C "$T" clean -fdq -- skactiveml/visualization/tests/images 2>/dev/null
